@@ -316,10 +316,11 @@ Section Msgs.
   Definition serialize_remoting (m : msg) : mres bytes :=
     let*m b := enc_body m in MOk (put_lp4 b).
 
-  (** Reader.ReadMessage given the reader of registered bodies: the body and the name are copied out
-      first; a registered name is decoded from the body alone (bytes left over in the body are ignored) *)
+  (** Reader.ReadMessage given the reader of registered bodies: the body is a sub-slice of the buffer
+      (not copied), the name is copied out; a registered name is decoded from the body alone (bytes left
+      over in the body are ignored) *)
   Definition read_message_with (body : kind -> dec msg) : dec msg :=
-    let+ data := d_str in
+    let+ data := d_sub in
     let+ name := d_str in
     match kind_of_name name with
     | Some k => fun rest =>
